@@ -847,7 +847,9 @@ class spawn(SpawnBase):
                     data = input_filter(data)
                 i = -1
                 if escape_character is not None:
-                    i = data.rfind(escape_character)
+                    # stop at the first escape character: nothing typed
+                    # after it may reach the child
+                    i = data.find(escape_character)
                 if i != -1:
                     data = data[:i]
                     if data:
